@@ -18,6 +18,8 @@ Aggregates (immutable, updates are functional)
   Opaque(tag)            an unknown value with identity: survives copies and
                          moves, any computation on it yields TOP.
 """
+import struct as _struct
+
 
 SETMAX = 600
 PAIRMAX = 70000
@@ -716,7 +718,36 @@ def _fmul(x, y):
     return x * y
 
 
+def f32r(x):
+    """round a binary64 value to the nearest binary32 value (all floats of the analysed code are f32; for
+    + - * / on binary32 operands, computing in binary64 and rounding once more is exact)"""
+    if x != x or x in (INF, -INF):
+        return x
+    try:
+        return _struct.unpack("f", _struct.pack("f", x))[0]
+    except OverflowError:
+        return INF if x > 0 else -INF
+
+
+def f32_next_up(x):
+    """the next binary32 value above the binary32 value x"""
+    if x != x or x == INF:
+        return x
+    if x == 0.0:
+        return _struct.unpack("f", _struct.pack("I", 1))[0]
+    i = _struct.unpack("I", _struct.pack("f", x))[0]
+    i = i + 1 if x > 0 else i - 1
+    return _struct.unpack("f", _struct.pack("I", i))[0]
+
+
 def fbinop(op, a, b):
+    r = _fbinop(op, a, b)
+    if isinstance(r, Fl) and r is not FTOP:
+        return Fl(f32r(r.lo), f32r(r.hi), r.nan)
+    return r
+
+
+def _fbinop(op, a, b):
     a = fl_of(a)
     b = fl_of(b)
     if op in _CMP:
